@@ -28,7 +28,10 @@ The model's `World.exec` refuses transactions violating E1 / E2 (they are no-ops
 `storage_keys_faithful` (explicit hypothesis; `render_collision` shows the collision without it).
 `success_ack_effects` needs "the receiver is not the contract itself" and has it as the explicit
 hypothesis `hrs`.  IBC core's guarantee (one acknowledgement or timeout per sent packet, original
-data) is the explicit predicate `admissible` inside `runG`.
+data) is the explicit predicate `admissible` inside `runG`; the `…_all_histories` theorems drop it
+(`runU`, Lemmas/Ics20Ledger.lean).  The **honest counterparty** of the property's quantifier is the
+explicit model of Lemmas/Ics20Honest.lean (`HEv`, `CpState`, `honestEv`, `HonestFrom`); it is used by
+`refund_never_refused`, `refund_refused_iff_gas` and `refund_always_processed_fresh` only.
 -/
 namespace CwPlus.Props.C12
 open CwPlus CwPlus.Ics20
@@ -1164,5 +1167,55 @@ theorem success_ack_frame {w w' : World} {blk : Block} {p : PacketIn} {rv tv f :
 
 example : ∃ w' o, (run w0 (hist.take 1)).exec b0 (.recv (pkt (.cw20 "T1") 15) true true false) = .ok (w', o) ∧
     o.ack = some .success ∧ w'.tokBal "T1" "alice" = 75 := ⟨_, _, rfl, by decide, by decide⟩
+
+/-! ## Exactly which transfers are accepted -/
+
+/-- **C12, transfer_accepted_iff** (the converse of `transfer_emits_one_packet`: the model does not accept
+too little): `execute_transfer` accepts iff the amount is non-zero, the channel is registered, the config
+has the current layout, the cw20 gate holds (native, or allow-listed, or a default gas limit is set), the
+timeout `block.time + (requested ∨ default)·10⁹` fits `u64` (product and sum), the amount fits `u64`, and
+neither `outstanding` nor `total_sent` of the key overflows `Uint128`. -/
+theorem transfer_accepted_iff (s : State) (blk : Block) (msg : TransferMsg) (d : Denom) (amt : Nat) (snd : Addr) :
+    (∃ r, execTransfer s blk msg d amt snd = .ok r) ↔
+      amt ≠ 0 ∧ msg.channel ∈ s.channels ∧ s.v1gov = none ∧ transferGate s s.config d = true ∧
+      (msg.timeout.getD s.config.defaultTimeout) * 1000000000 ≤ U64_MAX ∧
+      blk.time + (msg.timeout.getD s.config.defaultTimeout) * 1000000000 ≤ U64_MAX ∧ amt ≤ U64_MAX ∧
+      outAt s.chan (msg.channel, d) + amt ≤ U128_MAX ∧ totAt s.chan (msg.channel, d) + amt ≤ U128_MAX := by
+  have hout : outAt s.chan (msg.channel, d) = ((s.chan.get? (msg.channel, d)).getD ⟨0, 0⟩).outstanding := by
+    simp [outAt]; cases s.chan.get? (msg.channel, d) <;> rfl
+  have htot : totAt s.chan (msg.channel, d) = ((s.chan.get? (msg.channel, d)).getD ⟨0, 0⟩).totalSent := by
+    simp [totAt]; cases s.chan.get? (msg.channel, d) <;> rfl
+  rw [hout, htot]
+  cases hv : s.v1gov with
+  | some g => simp [execTransfer, loadConfig, hv]
+  | none => simp [execTransfer, loadConfig, hv, increaseBalance]
+
+/-- **C12, send_accepted_iff** (transaction level, cw20 `Send` — also the liveness side of C18's gate: the
+gate is not stricter than stated): a `Send{contract: ics20, amount, msg}` on a real token is accepted iff
+the sender is not the contract itself, the token exists, the sender owns the amount, the hook message
+decodes, and `execute_transfer` accepts (`transfer_accepted_iff`). -/
+theorem send_accepted_iff (w : World) (blk : Block) (snd token : Addr) (amt : Nat) (msg : Option TransferMsg) :
+    (∃ r, w.exec blk (.sendCw20 snd token amt msg) = .ok r) ↔
+      snd ≠ w.self ∧ w.tokens.contains token = true ∧ amt ≤ w.tokBal token snd ∧
+      ∃ m, msg = some m ∧ ∃ r, execTransfer w.st blk m (.cw20 token) amt snd = .ok r := by
+  constructor
+  · rintro ⟨⟨w', o⟩, h⟩
+    obtain ⟨w1, m, s, out, hself, htoken, hb, rfl, hs, _, _⟩ := exec_sendCw20_spec h
+    exact ⟨hself, htoken, (tokSend_spec hb).1, m, rfl, _, hs⟩
+  · rintro ⟨hself, htoken, hle, m, rfl, ⟨s', out⟩, hs⟩
+    have hb : ∃ w1, w.tokSend token snd w.self amt = some w1 := by
+      unfold World.tokSend
+      simp [Nat.not_lt.mpr hle]
+    obtain ⟨w1, hb⟩ := hb
+    have hst := (tokSend_frame hb).1
+    refine ⟨({ w1 with st := s' }, { sent := [out] }), ?_⟩
+    have htok' : token ∈ w.tokens := by simpa using htoken
+    simp only [World.exec]
+    simp [check, hself, htok', hb, hst, execReceive, hs, bind, Except.bind, pure, Except.pure]
+
+example : ∃ r, w0.exec b0 (.sendCw20 "alice" "T1" 40 (some tm)) = .ok r :=
+  (send_accepted_iff w0 b0 "alice" "T1" 40 (some tm)).mpr
+    ⟨by decide, by decide, by decide, tm, rfl,
+      (transfer_accepted_iff _ _ _ _ _ _).mpr ⟨by decide, by decide, by decide, by decide, by decide, by decide, by decide, by decide, by decide⟩⟩
 
 end CwPlus.Props.C12
